@@ -561,6 +561,83 @@ func retryScripts(maxLen int) []string {
 	return out
 }
 
+// retryCancelInAttempt: the scheduler's context ends WHILE an attempt is running (not during a retry wait), with retries left,
+// for RetryInterval > 0, = 0 ("retry at once") and < 0. The attempt in progress fails; no further attempt may start: the
+// sequence is over when the context ends, however short the wait is. Returns violations.
+type blockingFailer struct {
+	mu       sync.Mutex
+	attempts int
+	blockAt  int
+	entered  chan struct{}
+	release  chan struct{}
+	deadCtx  int
+}
+
+func (j *blockingFailer) Execute(ctx context.Context) error {
+	j.mu.Lock()
+	j.attempts++
+	k := j.attempts
+	if ctx.Err() != nil {
+		j.deadCtx++
+	}
+	j.mu.Unlock()
+	if k == j.blockAt {
+		j.entered <- struct{}{}
+		<-j.release
+	}
+	return fmt.Errorf("attempt %d fails", k)
+}
+func (j *blockingFailer) Description() string { return "blocking-failer" }
+
+func retryCancelInAttempt(mode int, interval time.Duration, blockAt int, via string) []string {
+	desc := fmt.Sprintf("mode=%s MaxRetries=6 RetryInterval=%v every attempt fails; %s while attempt %d is running", retryModes[mode], interval, via, blockAt)
+	opts := []quartz.SchedulerOpt{quartz.WithOutdatedThreshold(time.Minute)}
+	switch mode {
+	case 0:
+		opts = append(opts, quartz.WithBlockingExecution())
+	case 1:
+		opts = append(opts, quartz.WithWorkerLimit(2))
+	}
+	s, err := quartz.NewStdScheduler(opts...)
+	must(err)
+	ctx, cancel := context.WithCancel(context.Background())
+	defer cancel()
+	s.Start(ctx)
+	j := &blockingFailer{blockAt: blockAt, entered: make(chan struct{}, 1), release: make(chan struct{})}
+	jo := quartz.NewDefaultJobDetailOptions()
+	jo.MaxRetries, jo.RetryInterval = 6, interval
+	must(s.ScheduleJob(quartz.NewJobDetailWithOptions(j, quartz.NewJobKey("bf"), jo), quartz.NewRunOnceTrigger(time.Millisecond)))
+	select {
+	case <-j.entered:
+	case <-time.After(10 * time.Second):
+		s.Stop()
+		return []string{"C13 attempt " + fmt.Sprint(blockAt) + " was not reached within 10 s [" + desc + "]"}
+	}
+	if via == "ctx" {
+		cancel()
+	} else {
+		s.Stop()
+	}
+	time.Sleep(2 * time.Millisecond)
+	close(j.release)
+	wctx, wc := context.WithTimeout(context.Background(), 5*time.Second)
+	s.Wait(wctx)
+	waited := wctx.Err() == nil
+	wc()
+	time.Sleep(20 * time.Millisecond)
+	j.mu.Lock()
+	n, dead := j.attempts, j.deadCtx
+	j.mu.Unlock()
+	var v []string
+	if n != blockAt {
+		v = append(v, fmt.Sprintf("C13 the context ended while attempt %d was running, yet %d attempt(s) were made in total (%d of them started with a context that had already ended) [%s]", blockAt, n, dead, desc))
+	}
+	if !waited {
+		v = append(v, fmt.Sprintf("C13 Wait did not return within 5 s after the context ended during attempt %d [%s]", blockAt, desc))
+	}
+	return v
+}
+
 func retryRun(args []string) int {
 	fs := flag.NewFlagSet("retry", flag.ExitOnError)
 	seed := fs.Int64("seed", 1, "")
@@ -716,11 +793,31 @@ func retryRun(args []string) int {
 			samples = append(samples, res.sample)
 		}
 	}
+	// the context ends during an attempt
+	inAttempt := 0
+	for mode := range retryModes {
+		for _, iv := range []time.Duration{2 * time.Millisecond, 0, -time.Millisecond} {
+			for _, k := range []int{1, 2, 4} {
+				for _, via := range []string{"stop", "ctx"} {
+					for rep := 0; rep < 3; rep++ { // (two ready select cases are chosen at random: repeat)
+						vs := retryCancelInAttempt(mode, iv, k, via)
+						inAttempt++
+						dist["end"]["cancelled during an attempt"]++
+						for _, x := range vs {
+							if len(viol) < 60 {
+								viol = append(viol, x)
+							}
+						}
+					}
+				}
+			}
+		}
+	}
 	sort.Strings(viol)
 	writeLines(*out+"/ops.txt", ops)
 	writeLines(*out+"/impl.txt", impl)
 	writeJSON(*out+"/stats.json", map[string]any{"seed": *seed, "evaluations": len(ops), "cases": len(cases), "distinct_nontrivial": nontrivial,
-		"distribution": dist, "violations": viol, "samples": samples, "exhaustive": *maxLen > 0,
+		"distribution": dist, "violations": viol, "samples": samples, "exhaustive": *maxLen > 0, "cancelled_during_attempt_scenarios": inAttempt,
 		"min_gap_between_attempts_ns": minGap.Nanoseconds(), "retry_interval_ns": interval.Nanoseconds(),
 		"space": fmt.Sprintf("MaxRetries in {-1..4} x all scripts over {o,e,p} of length <= %d x %s", *maxLen, strings.Join(retryModes, ","))})
 	fmt.Printf("retry: %d cases, %d executions observed, smallest gap between attempts %v (RetryInterval %v), %d property violations\n",
